@@ -9,6 +9,7 @@
 
 mod deletestress;
 mod fcsched;
+mod nsstress;
 mod orderstress;
 mod puresweep;
 mod pushstress;
@@ -29,6 +30,7 @@ fn main() {
         Some("racestress") => racestress::main_racestress(&args[1..]),
         Some("orderstress") => orderstress::main_orderstress(&args[1..]),
         Some("pushstress") => pushstress::main_pushstress(&args[1..]),
+        Some("nsstress") => nsstress::main_nsstress(&args[1..]),
         Some("topicstress") => topicstress::main_topicstress(&args[1..]),
         Some("deletestress") => deletestress::main_deletestress(&args[1..]),
         _ => {
